@@ -211,7 +211,7 @@ impl Prop for C06 {
                 space(tier).describe()
             ),
             assumptions: vec![
-                "the WASM payload preparation mirrors mimium-cli's private FileRunner::prepare_hot_swap_wasm_payload / build_required_state_patch_plan (copied into the harness, not called)".into(),
+                "swaps go through mimium-cli's real file runner (cfg-guarded hook H6: FileRunner::recompile_file_inprocess on the VM, FileRunner::prepare_hot_swap_wasm_payload on WASM, the latter with module bytes compiled in-process instead of by the CLI's compiler subprocess, with and without skeleton/signatures)".into(),
                 "programs that do not run uninterrupted are left to C02/C03".into(),
             ],
             bounds: json!({"steps": t, "max_swaps_vm": s, "max_swaps_wasm": 1, "wasm_every_nth_program": we}),
